@@ -61,6 +61,20 @@ def compiled_values(pa, d, pairs):
     return [float(ua.disorder) for ua in uas]
 
 
+def continuum_value(pa, d, u, v):
+    """The value used when aligning a continuum: a: [u], b: [v] - the continuum's own category set holds only the
+    two labels in use (usually a strict subset of the dissimilarity's).  None when (u, v) is not a candidate."""
+    from pyannote.core import Segment
+    c = pa.Continuum()
+    c.add("a", Segment(u[0], u[1]), u[2])
+    c.add("b", Segment(v[0], v[1]), v[2])
+    dis, idx = d.valid_alignments(c)
+    for x, row in zip(np.asarray(dis), np.asarray(idx)):
+        if int(row[0]) == 0 and int(row[1]) == 0:
+            return float(x)
+    return None
+
+
 def check_pairs(pa, res, cfg_name, recipe, d, pairs, formula, flags=("sym", "zero")):
     """pairs: list of (u, v).  formula(u, v) -> float | None"""
     try:
@@ -96,6 +110,21 @@ def check_pairs(pa, res, cfg_name, recipe, d, pairs, formula, flags=("sym", "zer
             back = float(d.d(to_unit(v), to_unit(u)))
             if not close(back, dv):
                 msg = f"not symmetric: d({u},{v}) = {dv}, d({v},{u}) = {back}"
+        if msg is None and (k % max(1, len(pairs) // 150) == 0 or (u[2] != v[2] and k % 7 == 0 and k < 2000)):
+            # the form used when a continuum is aligned (candidate table of a: [u], b: [v])
+            res["transitions"] += 1
+            cut = 2 * float(d.delta_empty)
+            try:
+                cval = continuum_value(pa, d, u, v)
+            except Exception as e:  # noqa
+                cval = f"{type(e).__name__}: {e}"
+            if isinstance(cval, str):
+                msg = f"candidate table of the continuum a: [{u}], b: [{v}] raised {cval}"
+            elif cval is None:
+                if dv < cut - 1e-5:
+                    msg = f"({u}, {v}) is missing from the candidate table of the continuum a: [u], b: [v] although d() = {dv} <= {cut}"
+            elif not close(cval, dv):
+                msg = f"the candidate table of the continuum a: [{u}], b: [{v}] uses {cval} but d() gives {dv}"
         if k % 50 == 0 and msg is None:
             # the property's own observation point, unbatched
             one = float(pa.UnitaryAlignment([("a", to_unit(u)), ("b", to_unit(v))]).compute_disorder(d))
